@@ -170,7 +170,8 @@ func renderNodeWithContext(ctx VueContext, w io.Writer, node *html.Node, indent 
 		// Inside <pre> whitespace is content: text is written as it is, without
 		// indentation, and whitespace-only runs are kept.
 		inPre := insidePre(ctx)
-		if !inPre && strings.TrimSpace(node.Data) == "" {
+		// (HTML white space only: a no-break space is text, not formatting)
+		if !inPre && strings.Trim(node.Data, " \t\n\r\f") == "" {
 			return nil
 		}
 		spaces := getIndent(indent)
